@@ -59,9 +59,14 @@ impl TransportError {
 #[derive(Copy, Clone, PartialEq, Eq)] pub enum SendState { Ready, DataSent { finish_acked: bool }, ResetSent }
 pub struct SendBuffer { pub un: u64 }
 impl SendBuffer { pub fn unacked(&self) -> (r: u64) ensures r == self.un { self.un } }
-pub struct Send { pub state: SendState, pub pending: SendBuffer, pub max_data: u64 }
+pub struct Send { pub state: SendState, pub pending: SendBuffer, pub max_data: u64, pub connection_blocked: bool }
 impl Send {
     #[verifier::external_body] pub fn reset(&mut self) ensures final(self).state == SendState::ResetSent, final(self).pending == old(self).pending { unimplemented!() }
+    /// clauses of Send::increase_max_data proved on the real function in unit send_stream
+    #[verifier::external_body] pub fn increase_max_data(&mut self, offset: u64) -> (r: bool)
+        ensures final(self).max_data == (if offset > old(self).max_data && old(self).state == SendState::Ready { offset } else { old(self).max_data }),
+            final(self).state == old(self).state, final(self).pending == old(self).pending, final(self).connection_blocked == old(self).connection_blocked
+    { unimplemented!() }
 }
 pub struct ClosedStream { pub _private: () }
 pub struct Retransmits { pub reset_stream: Vec<(super::code::StreamId, VarInt)> }
@@ -277,9 +282,29 @@ impl StreamsState {
     /// opaque: application events / implicit opening of lower-numbered remote streams; touches no flow-control field
     #[verifier::external_body]
     pub fn on_stream_frame(&mut self, notify_readable: bool, stream: StreamId)
-        ensures final(self).fc() == old(self).fc(), final(self).recv == old(self).recv, final(self).side == old(self).side,
+        ensures final(self).fc() == old(self).fc(), final(self).recv == old(self).recv, final(self).side == old(self).side, final(self).send == old(self).send,
+            final(self).max_data == old(self).max_data, final(self).data_sent == old(self).data_sent, final(self).unacked_data == old(self).unacked_data,
     { unimplemented!() }
 
+//@ extract quinn-proto/src/connection/streams/state.rs :: impl StreamsState::fn received_max_stream_data
+//@ props C05 C03
+//@ ret res
+//@ replace ws:self .send .get_mut(&id) .map(get_or_insert_send(max_send_data)) => send_entry(&mut self.send, id, max_send_data)
+//@ contract
+        requires old(self).data_sent <= old(self).max_data
+        ensures
+            final(self).max_data == old(self).max_data, final(self).data_sent == old(self).data_sent, final(self).unacked_data == old(self).unacked_data,
+            match res {
+                // a stream's limit only ever moves up, to the value just received (and only while the stream can still send)
+                Ok(()) => !(id.initiator() != old(self).side && id.dir() == Dir::Uni) && match send_abs(old(self).send, id) {
+                    Some(s0) => send_abs(final(self).send, id) matches Some(s1) && s1.max_data == (if offset > s0.max_data && s0.state == SendState::Ready { offset } else { s0.max_data })
+                        && s1.state == s0.state && s1.pending == s0.pending,
+                    None => final(self).send == old(self).send,
+                },
+                Err(e) => e.code == Code::STREAM_STATE_ERROR && final(self).send == old(self).send
+                    && ((id.initiator() != old(self).side && id.dir() == Dir::Uni) || (id.initiator() == old(self).side && send_abs(old(self).send, id).is_none())),
+            }
+//@ end
 //@ extract quinn-proto/src/connection/streams/state.rs :: impl StreamsState::fn zero_rtt_rejected
 //@ props C05
 //@ replace Dir::iter() => dir_iter()
